@@ -229,3 +229,9 @@ func Run(v []Ent, timeout time.Duration, f func()) (outcome string, detail strin
 		return "hang", "no result after " + timeout.String(), nil
 	}
 }
+
+// JSONCount / JSONValue expose, under the engine, the Go values handed to
+// encoding/json encoders on this path (the engine models the encoder as a
+// recorder). Natively the harness parses the recorded response body instead.
+func JSONCount() int      { return 0 }
+func JSONValue(k int) any { return nil }
